@@ -229,9 +229,14 @@ func TestVerifBounded_C09_Recovery(t *testing.T) {
 		{"leaving-too-many", LEAVING, []uint32{10, 20, 30, 40, 50, 60}, false},
 	}
 	for _, lo := range lefts {
-		for _, withFile := range []bool{false, true} {
+		for _, fileKind := range []string{"false", "true", "short"} { // no tokens file / a file with the full count / a file with fewer tokens than configured
+			withFile := fileKind != "false"
+			fileTokens := Tokens{100, 200, 300, 400}
+			if fileKind == "short" {
+				fileTokens = Tokens{100, 200}
+			}
 			cases++
-			tag := fmt.Sprintf("c09:%s:file=%v", lo.name, withFile)
+			tag := fmt.Sprintf("c09:%s:file=%v", lo.name, fileKind)
 			store, closer := consul.NewInMemoryClient(GetCodec(), log.NewNopLogger(), nil)
 			reg := time.Now().Add(-time.Hour).Unix()
 			_ = store.CAS(ctx, "ring", func(in interface{}) (interface{}, bool, error) {
@@ -245,7 +250,7 @@ func TestVerifBounded_C09_Recovery(t *testing.T) {
 			file := ""
 			if withFile {
 				file = filepath.Join(dir, tag+".json")
-				if err := (Tokens{100, 200, 300, 400}).StoreToFile(file); err != nil {
+				if err := fileTokens.StoreToFile(file); err != nil {
 					t.Fatal(err)
 				}
 			}
@@ -289,8 +294,17 @@ func TestVerifBounded_C09_Recovery(t *testing.T) {
 						report(tag+":tokens-kept", fmt.Sprintf("tokens %v lost the recorded ones %v", me.Tokens, lo.tokens))
 					}
 				}
-			} else if withFile && fmt.Sprint(me.Tokens) != "[100 200 300 400]" {
-				report(tag+":file-tokens", fmt.Sprintf("tokens %v, the tokens file recorded [100 200 300 400]", me.Tokens))
+			} else if withFile {
+				have := map[uint32]bool{}
+				for _, tk := range me.Tokens {
+					have[tk] = true
+				}
+				for _, tk := range fileTokens {
+					if !have[tk] {
+						report(tag+":file-tokens", fmt.Sprintf("tokens %v, the tokens file recorded %v", me.Tokens, fileTokens))
+						break
+					}
+				}
 			}
 			// the store loses the ring while the lifecycler runs: it re-registers with its remembered tokens and a fresh registration time
 			before := me
@@ -335,7 +349,7 @@ func TestVerifBounded_C09_Recovery(t *testing.T) {
 			report("c09:tokens-file-temp", fmt.Sprintf("temporary files left behind: %v", left))
 		}
 	}
-	fmt.Printf("BOUNDED-CASES name=C09_Recovery n=%d distinct=%d bound=restart with the ring holding {no entry, pending, joining (with/without tokens), active, leaving (4, 2, 6 tokens)} x tokens file present/absent, next to another instance; then the store loses the ring while running; tokens file rewrite\n", cases, cases)
+	fmt.Printf("BOUNDED-CASES name=C09_Recovery n=%d distinct=%d bound=restart with the ring holding {no entry, pending, joining (with/without tokens), active, leaving (4, 2, 6 tokens)} x tokens file {absent, full count, fewer tokens than configured}, next to another instance; then the store loses the ring while running; tokens file rewrite\n", cases, cases)
 	if fails > 0 {
 		t.Fatalf("%d mismatches", fails)
 	}
